@@ -54,7 +54,8 @@ structure Nd where
   hand : Nat := 0           -- message taken and not yet passed on (0/1)
   got : Nat := 0            -- ghost: messages taken off the input edge
   deliv : Nat := 0          -- points handed to the external output of this node
-  lost : Nat := 0           -- ghost: points this node dropped (hand on error, enqueue on stopping, buffer at abort, queue overflow)
+  lost : Nat := 0           -- ghost: points lost on the OUTPUT side (enqueue on stopping, buffer discarded at abort, handler queue overflow, loop-back refused)
+  dropped : Nat := 0        -- ghost: points lost on the FORWARD side (message in hand when Collect returned ErrAborted / when the node failed)
   buf : Nat := 0            -- influx: points in writeBuffer.buffer; alert: events queued in the bufHandler
   inited : Bool := false    -- alert: delete hook registered (needs tm.mu in the unrepaired code)
   stopping : Bool := false  -- influx: w.stopping closed; udf: aborted; alert: events channel closed (CloseTopic)
@@ -100,6 +101,20 @@ structure NRes where
 /-- Close the input edge of a child (edge.Close: fails on an aborted edge). -/
 def closeIn (c : Nd) : Nd := if c.inAborted then c else { c with inClosed := true }
 
+/-- runF returns normally: the input edge is closed and drained (alert: and CloseTopic has returned;
+udf: or the UDF was aborted). -/
+def exitOk (nd : Nd) : Bool :=
+  match nd.kind with
+  | .alert _ => nd.hand = 0 ∧ nd.inq = 0 ∧ nd.inClosed ∧ nd.helperDone
+  | .udf => nd.hand = 0 ∧ ((nd.inq = 0 ∧ nd.inClosed) ∨ nd.stopping)
+  | _ => nd.hand = 0 ∧ nd.inq = 0 ∧ nd.inClosed
+
+/-- runF returns an error (repaired alert node: after CloseTopic). -/
+def exitFailedOk (env : Env) (nd : Nd) : Bool :=
+  match nd.kind with
+  | .alert _ => env.alertLeak ∨ nd.helperDone
+  | _ => true
+
 /-- One action of node `nd` whose child (next node in the chain) is `child`. -/
 def nodeStep (env : Env) (a : NAct) (nd : Nd) (child : Option Nd) : Option NRes :=
   match a with
@@ -135,7 +150,7 @@ def nodeStep (env : Env) (a : NAct) (nd : Nd) (child : Option Nd) : Option NRes 
         else some ⟨{ nd with inq := nd.inq - 1, got := nd.got + 1, hand := 1, lost := nd.lost + 1 }, child, false⟩
       | .fail K =>
         if nd.got < K then some ⟨{ nd with inq := nd.inq - 1, got := nd.got + 1, hand := 1 }, child, false⟩
-        else some ⟨{ nd with inq := nd.inq - 1, got := nd.got + 1, failed := true, lost := nd.lost + 1 }, child, false⟩
+        else some ⟨{ nd with inq := nd.inq - 1, got := nd.got + 1, failed := true, dropped := nd.dropped + 1 }, child, false⟩
     else none
   | .put =>
     if !nd.done ∧ nd.hand = 1 ∧ !nd.failed then
@@ -160,7 +175,7 @@ def nodeStep (env : Env) (a : NAct) (nd : Nd) (child : Option Nd) : Option NRes 
     | .influx _, _ => none
     | .loop, _ => none
     | _, some c =>
-      if !nd.done ∧ nd.hand = 1 ∧ !nd.failed ∧ c.inAborted then some ⟨{ nd with hand := 0, lost := nd.lost + 1, failed := true }, child, false⟩ else none
+      if !nd.done ∧ nd.hand = 1 ∧ !nd.failed ∧ c.inAborted then some ⟨{ nd with hand := 0, dropped := nd.dropped + 1, failed := true }, child, false⟩ else none
     | _, none => none
   | .enqDrop =>
     match nd.kind with
@@ -173,19 +188,10 @@ def nodeStep (env : Env) (a : NAct) (nd : Nd) (child : Option Nd) : Option NRes 
         some ⟨{ nd with stopping := true }, child, false⟩ else none
     | _ => none
   | .exit =>
-    let fin : Bool :=
-      match nd.kind with
-      | .alert _ => nd.hand = 0 ∧ nd.inq = 0 ∧ nd.inClosed ∧ nd.helperDone
-      | .udf => nd.hand = 0 ∧ ((nd.inq = 0 ∧ nd.inClosed) ∨ nd.stopping)
-      | _ => nd.hand = 0 ∧ nd.inq = 0 ∧ nd.inClosed
-    let failFin : Bool :=
-      match nd.kind with
-      | .alert _ => env.alertLeak ∨ nd.helperDone     -- repaired code: CloseTopic also on the error path
-      | _ => true
     if nd.done then none
     else if nd.failed then
-      if failFin then some ⟨{ nd with done := true, inAborted := true }, child.map closeIn, false⟩ else none
-    else if fin then some ⟨{ nd with done := true }, child.map closeIn, false⟩
+      if exitFailedOk env nd then some ⟨{ nd with done := true, inAborted := true }, child.map closeIn, false⟩ else none
+    else if exitOk nd then some ⟨{ nd with done := true }, child.map closeIn, false⟩
     else none
 
 /-- Apply a node action at position `i` of the chain. Returns the new chain and whether a point was looped. -/
@@ -330,13 +336,15 @@ def step (cfg : Cfg) (s : State) : Act → Option State
   | .forkPut =>
     if s.forkRL then
       if s.forkLoop = 1 then some { s with forkLoop := 0, forkRL := false }   -- no task subscribes to the loop-back db/rp
-      else if !s.registered then some { s with forkHand := 0, forkRL := false, lostIngest := s.lostIngest + 1 }
-      else
-        match s.nodes with
-        | [] => none
-        | nd :: rest =>
-          if nd.inq < cfg.cap then some { s with forkHand := 0, forkRL := false, nodes := { nd with inq := nd.inq + 1, ent := nd.ent + 1 } :: rest }
-          else none
+      else if s.forkHand = 1 then
+        if !s.registered then some { s with forkHand := 0, forkRL := false, lostIngest := s.lostIngest + 1 }
+        else
+          match s.nodes with
+          | [] => none
+          | nd :: rest =>
+            if nd.inq < cfg.cap then some { s with forkHand := 0, forkRL := false, nodes := { nd with inq := nd.inq + 1, ent := nd.ent + 1 } :: rest }
+            else none
+      else none
     else none
   | .forkDrop =>
     if s.forkRL ∧ s.forkHand = 1 ∧ s.registered then
